@@ -151,6 +151,7 @@ def gen_program(rng, family="core", nfn=None):
         "accum": ["plain", "plain", "noeq", "q2"],
         "churn": ["plain", "plain", "q2"],
         "mixed": ["plain", "noeq", "lru", "q2"],
+        "persist": ["pplain", "pplain", "pnp", "pnoeq"],
     }[family]
     base_ops = {
         "core": ["in", "in", "call", "call", "cell"],
@@ -163,6 +164,7 @@ def gen_program(rng, family="core", nfn=None):
         "accum": ["in", "in", "call", "call", "acc", "acc"],
         "churn": ["in", "in", "in", "call", "call", "intern", "intern", "intern", "rdint", "calli", "new", "fld"],
         "mixed": ["in", "in", "call", "call", "cell", "new", "fld", "calls", "intern", "rdint", "acc"],
+        "persist": ["in", "in", "call", "call"],
     }[family]
     fns = [None] * nfn
     exports = {}
@@ -664,7 +666,7 @@ def gen_history(rng, prog, nops, family="core"):
     ncell = len(prog["cells"])
     nv = prog["nv"]
     hist = []
-    w = {"get": 6, "set": 4, "synth": 1, "cell": 2 if ncell else 0, "lru": 0, "evict": 0, "accum": 0, "gets": 0}
+    w = {"get": 6, "set": 4, "synth": 1, "cell": 2 if ncell else 0, "lru": 0, "evict": 0, "accum": 0, "gets": 0, "persist": 2 if family == "persist" else 0}
     if family in ("lru", "mixed"):
         w["lru"] = 1
         w["evict"] = 1
@@ -707,6 +709,8 @@ def gen_history(rng, prog, nops, family="core"):
             hist.append({"op": "lru", "k": rng.choice([0, 1, 1, 2, 3])})
         elif o == "evict":
             hist.append({"op": "evict"})
+        elif o == "persist":
+            hist.append({"op": "persist"})
         elif o == "accum":
             hist.append({"op": "accum", "f": rng.randrange(nfn) + 1})
         elif o == "gets":
